@@ -338,6 +338,10 @@ func vf35Authority(c vf35Call) bool {
 }
 
 func vf35NewCase(t testing.TB, rng *rand.Rand) *vf35Case {
+	return vf35NewCaseTimeout(t, rng, 0)
+}
+
+func vf35NewCaseTimeout(t testing.TB, rng *rand.Rand, indexerTimeout time.Duration) *vf35Case {
 	c := &vf35Case{rng: rng, ch: vf35NewChain(), nc: 4}
 	for i := 0; i < 5; i++ {
 		c.others = append(c.others, vf35Key(rng).PublicKey())
@@ -346,7 +350,7 @@ func vf35NewCase(t testing.TB, rng *rand.Rand) *vf35Case {
 	c.ch.committee = slices.Clone(c.others[:4]) // provisional, the state sets the real lists
 	c.ch.config["BasicIncomeRate"] = 5
 	c.w = vf35NewWorld(rng, c.ch, 3)
-	c.n = vf35NewNode(t, rng, c.ch, vf35NodeOpts{AlphabetContracts: c.nc, StorageEmission: 1_0000_0000})
+	c.n = vf35NewNode(t, rng, c.ch, vf35NodeOpts{AlphabetContracts: c.nc, StorageEmission: 1_0000_0000, IndexerTimeout: indexerTimeout})
 	return c
 }
 
@@ -358,8 +362,9 @@ func TestVerif_C35(t *testing.T) {
 	defer r.Finish()
 	reps := r.Pick(5, 40)
 	events := vf35Events()
-	r.SetRule(fmt.Sprintf("%d membership states (member; member whose index is beyond the alphabet contracts; member with failing inner-ring lookup; non-member with low/high inner ring index; outsider; non-member with failing inner-ring / committee lookup) x %d live events (every notification and notary request type the processors register, epoch and basic-income timers, startup vote and deposits, control-service actions) x %d seeded repetitions on a fresh node each (real Server state + indexer, real processors and listeners, recording chain); notary requests are delivered twice; distinct = (state, event, multiset of chain calls) signatures", len(vf35States), len(events), reps))
+	r.SetRule(fmt.Sprintf("%d membership states (member; member whose index is beyond the alphabet contracts; member with failing inner-ring lookup; non-member with low/high inner ring index; outsider; non-member with failing inner-ring / committee lookup) x %d live events (every notification and notary request type the processors register, epoch and basic-income timers, startup vote and deposits, control-service actions) x %d seeded repetitions on a fresh node each (real Server state + indexer, real processors and listeners, recording chain); notary requests are delivered twice; distinct = (state, event, multiset of chain calls) signatures.  Then membership histories on one node with a caching indexer (timeout never reached by wall clock): per step the committee may gain/lose the node, inner-ring/committee lookups start or stop failing, the index cache is ended (reset as after a connection loss / timeout run out) and a live event is delivered; skeletons (never-member meeting failed lookups; member that left while the refresh failed; member that left with healthy refresh) x every non-control event x fault kind x cache ending, plus %d seeded random histories of 3-7 steps; distinct = per-step (membership, fault, cache, event, calls) sequences that contain a judged non-member step", len(vf35States), len(events), reps, r.Pick(150, 4000)))
 	r.Assume("alphabet member = the node's key is in the FS chain committee (what Server.IsAlphabet/AlphabetIndex look up); 'needs alphabet authority' = every chain-mutating morph client wrapper except the node's own notary deposits")
+	r.Assume("the statement does not bound the age of the configured index cache: a node that left the committee is judged only once its cached indexes have ended (reset / timeout) or if it could never have seen itself in the committee during the current cache period")
 
 	// inventory: every registered handler must have a generator
 	{
@@ -496,6 +501,10 @@ func TestVerif_C35(t *testing.T) {
 		}
 		r.Count("live_in_member_state: "+ev.name, live[ev.name])
 	}
+
+	// second part: membership histories on nodes with a caching indexer
+	r.SetMaxSamples(9)
+	vf35Histories(t, r, events)
 }
 
 func vf35KeysStr(l keys.PublicKeys) []string {
